@@ -1254,6 +1254,10 @@ int Interpret::interpPipe() {
             }
         }
     }
+    if (not done and (par > 0 or inString or inQuotedSymbol)) {
+        // the input ended inside a command: nothing would be reported otherwise
+        notify_formatted(true, "pipe reader: unexpected end of input inside a command");
+    }
     free(buf);
     return 0;
 }
